@@ -220,7 +220,8 @@ class Interp(object):
                 return self.native(bm.str_join, [self, s, args[0]], {}, model_call=True)
             raise Unsupported('str.%s with symbolic arguments' % name)
         if isinstance(s, str) and getattr(f, '__name__', '') == 'join' and args:
-            return self.native(f, [self.iterate(args[0])], {})
+            from . import builtins_model as bm
+            return self.native(bm.str_join, [self, s, args[0]], {}, model_call=True)
         return self.native_guarded(f, args, kwargs)
 
     def native(self, f, args, kwargs, model_call=False):
